@@ -1,0 +1,28 @@
+//! Verification hooks (cargo feature `verif-hooks`, off by default).
+//!
+//! A process-global callback that instrumented code calls at named points between the
+//! individual effects of a multi-step disk update. A verification harness installs a
+//! callback that copies the state directory at that instant, which is the disk image a
+//! process death at that point would leave behind.
+
+use std::sync::{Arc, RwLock};
+
+/// Callback type: receives the name of the point that was reached.
+pub type CrashCallback = Arc<dyn Fn(&'static str) + Send + Sync>;
+
+static CRASH_CB: RwLock<Option<CrashCallback>> = RwLock::new(None);
+
+/// Install (or clear) the global crash-point callback.
+pub fn set_crash_callback(cb: Option<CrashCallback>) {
+    if let Ok(mut g) = CRASH_CB.write() {
+        *g = cb;
+    }
+}
+
+/// Called by instrumented code; a no-op unless a callback is installed.
+pub fn crash_point(name: &'static str) {
+    let cb = CRASH_CB.read().ok().and_then(|g| g.clone());
+    if let Some(cb) = cb {
+        cb(name);
+    }
+}
